@@ -574,9 +574,11 @@ Inductive op :=
 | OHold (n : nat)         (* bring the number of established outbound connections (to other peers) to n *)
 | ODial (peer : N) (outcome : nat) (errs : list dial_error) (tcp ws qu : list maddr)
       (* dial(peer) end to end; tcp / ws / qu = the address lists the implementation handed to the
-         open() of the TCP / WebSocket / QUIC transport; outcome 0: every attempt fails, j+1: the
-         attempt on address j of tcp ++ ws ++ qu succeeds after the ones before it on the same
-         transport failed, the connection is established and closed again. Attempt i of
+         open() of the TCP / WebSocket / QUIC transport; outcome 0: every attempt fails, j0+1: the
+         attempt on address j0 mod n of tcp ++ ws ++ qu (n = their total length) succeeds after the
+         ones before it on the same transport failed, the connection is established and closed
+         again; the other transports report what the base-3 digits of j0 / n say (nothing, an
+         OpenFailure for all their addresses before the ConnectionOpened event, or after it). Attempt i of
          tcp ++ ws ++ qu, when it fails, fails with error kind errs[i mod |errs|] (Timeout when
          errs is empty) *)
 | OInsert (peer : N) (a : maddr) (sc : Z) (victim : option maddr)
@@ -698,19 +700,49 @@ Definition succeed_at (k : scorecfg) (s : store) (peer : N) (l : list (maddr * d
   | None => s1
   end.
 
-Definition dial_outcome (k : scorecfg) (s : store) (peer : N) (outcome : nat) (errs : list dial_error)
-           (tcp ws qu : list maddr) : store :=
+(* What the transports that did not open the connection report. A dial(peer) whose selection spans
+   several transports ends with one ConnectionOpened (transport `l`, position j) and, from every
+   other transport, either nothing (its attempts are cancelled), or an OpenFailure for all of its
+   addresses BEFORE the ConnectionOpened event (it is not the last transport: the manager only
+   stashes the errors for its report) or AFTER it (there is no dial to conclude any more). The
+   roles of the other transports are read off outcome / n in base 3 (0 silent, 1 before, 2 after;
+   first digit = the first other transport in the order TCP, WebSocket, QUIC). *)
+Definition sel (d want : nat) (l : list (maddr * dial_error)) : list (maddr * dial_error) :=
+  if (d =? want)%nat then l else [].
+
+(* before, the winning transport's attempts, the position of the attempt that connects, after *)
+Definition dial_episode (errs : list dial_error) (tcp ws qu : list maddr) (j0 : nat)
+  : list (maddr * dial_error) * list (maddr * dial_error) * nat * list (maddr * dial_error) :=
   let t := tag_errs errs 0 tcp in
   let w := tag_errs errs (length tcp) ws in
   let q := tag_errs errs (length tcp + length ws) qu in
+  let n := (length tcp + length ws + length qu)%nat in
+  let j := (j0 mod n)%nat in
+  let m := (j0 / n)%nat in
+  let d1 := (m mod 3)%nat in
+  let d2 := ((m / 3) mod 3)%nat in
+  if (j <? length tcp)%nat then (sel d1 1 w ++ sel d2 1 q, t, j, sel d1 2 w ++ sel d2 2 q)
+  else if (j <? length tcp + length ws)%nat
+       then (sel d1 1 t ++ sel d2 1 q, w, (j - length tcp)%nat, sel d1 2 t ++ sel d2 2 q)
+       else (sel d1 1 t ++ sel d2 1 w, q, (j - length tcp - length ws)%nat, sel d1 2 t ++ sel d2 2 w).
+
+(* OpenFailure events of other transports, the ConnectionOpened event (with the errors of the
+   earlier attempts of that transport) and the establishment, late OpenFailure events *)
+Definition mixed_outcome (k : scorecfg) (s : store) (peer : N)
+           (before l : list (maddr * dial_error)) (j : nat) (after : list (maddr * dial_error)) : store :=
+  fail_each k (succeed_at k (fail_each k s before) peer l j) after.
+
+Definition dial_outcome (k : scorecfg) (s : store) (peer : N) (outcome : nat) (errs : list dial_error)
+           (tcp ws qu : list maddr) : store :=
   match outcome with
-  | O => fail_each k (fail_each k (fail_each k s t) w) q
+  | O =>
+      let t := tag_errs errs 0 tcp in
+      let w := tag_errs errs (length tcp) ws in
+      let q := tag_errs errs (length tcp + length ws) qu in
+      fail_each k (fail_each k (fail_each k s t) w) q
   | S j0 =>
-      let n := (length tcp + length ws + length qu)%nat in
-      let j := (j0 mod n)%nat in
-      if (j <? length tcp)%nat then succeed_at k s peer t j
-      else if (j <? length tcp + length ws)%nat then succeed_at k s peer w (j - length tcp)
-      else succeed_at k s peer q (j - length tcp - length ws)
+      let '(before, l, j, after) := dial_episode errs tcp ws qu j0 in
+      mixed_outcome k s peer before l j after
   end.
 
 (* ---- dial_address ---- *)
